@@ -1,3 +1,232 @@
-//! placeholder, filled in below
+//! C07 (seed plumbing, Engine K part) and C08 (distinct streams) for Metropolis-Hastings and
+//! Gibbs.  Real code: `MetropolisHastings::{new, seed}`, `MHMarkovChain::new`,
+//! `IsotropicGaussian::{new, set_seed}`, `GibbsSampler::set_seed`.
+//! Symbolic: the 64-bit seed (all of u64, so the top of the range is covered), the OS entropy of
+//! every `from_os_rng` request.  `seed_from_u64` is the injective recorder stub.
+
+use crate::env;
+use crate::h_c01::BitEq;
 use crate::Src;
-pub fn by_name(_name: &str) -> Option<fn(&mut Src)> { None }
+use crate::{chk, cov, must};
+use mini_mcmc::distributions::{Conditional, IsotropicGaussian, Proposal, Target};
+use mini_mcmc::gibbs::{GibbsMarkovChain, GibbsSampler};
+use mini_mcmc::metropolis_hastings::MetropolisHastings;
+use rand::rngs::SmallRng;
+use rand::SeedableRng;
+
+#[derive(Clone, PartialEq, Debug)]
+pub struct FlatTarget;
+impl Target<f64, f64> for FlatTarget {
+    fn unnorm_logp(&self, _p: &[f64]) -> f64 {
+        0.0
+    }
+}
+
+/// A user-defined seedable proposal: remembers what `set_seed` told it.
+#[derive(Clone, PartialEq, Debug)]
+pub struct SeedRec {
+    pub seed: Option<u64>,
+    pub rng: SmallRng,
+}
+impl Proposal<f64, f64> for SeedRec {
+    fn sample(&mut self, current: &[f64]) -> Vec<f64> {
+        current.to_vec()
+    }
+    fn logp(&self, _from: &[f64], _to: &[f64]) -> f64 {
+        0.0
+    }
+    fn set_seed(mut self, seed: u64) -> Self {
+        self.seed = Some(seed);
+        self.rng = env::rng_of_seed(seed);
+        self
+    }
+}
+
+#[derive(Clone, PartialEq, Debug)]
+pub struct ConstCond;
+impl Conditional<f64> for ConstCond {
+    fn sample(&mut self, _i: usize, given: &[f64]) -> f64 {
+        given[0]
+    }
+}
+
+fn states(n: usize) -> Vec<Vec<f64>> {
+    let mut v = Vec::with_capacity(n);
+    let mut i = 0;
+    while i < n {
+        v.push(vec![0.0f64]);
+        i += 1;
+    }
+    v
+}
+
+macro_rules! mh_seeded_iso {
+    ($name:ident, $n:expr, $top:expr) => {
+        /// `MetropolisHastings::new(..).seed(s)` with the library's IsotropicGaussian proposal.
+        pub fn $name(src: &mut Src) {
+            const N: usize = $n;
+            let s = src.u64();
+            if $top {
+                // the top of the seed range, where per-chain offsets wrap
+                src.assume(s >= u64::MAX - 8);
+            }
+            env::set_entropy(src, 4 * (2 * N + 2));
+            // sampler A and sampler B: same inputs and seed, different OS entropy
+            let pa = IsotropicGaussian::<f64>::new(1.0);
+            let a = MetropolisHastings::new(FlatTarget, pa, states(N)).seed(s);
+            let pb = IsotropicGaussian::<f64>::new(1.0);
+            let b = MetropolisHastings::new(FlatTarget, pb, states(N)).seed(s);
+            chk!(src, a.chains.len() == N, "one chain per initial state");
+            if a.chains.len() != N || b.chains.len() != N {
+                return;
+            }
+            let mut i = 0;
+            while i < N {
+                chk!(src, a.chains[i].rng == b.chains[i].rng, "same seed gives the same acceptance generator (C07)");
+                chk!(src, a.chains[i].proposal == b.chains[i].proposal, "same seed gives the same proposal generator, whatever the OS entropy (C07)");
+                let mut j = i + 1;
+                while j < N {
+                    chk!(src, a.chains[i].rng != a.chains[j].rng, "seeded chains have pairwise distinct acceptance generators (C08)");
+                    chk!(src, a.chains[i].proposal != a.chains[j].proposal, "seeded chains have pairwise distinct proposal generators (C08)");
+                    j += 1;
+                }
+                let mut j = 0;
+                while j < N {
+                    chk!(src, a.chains[i].rng != *a.chains[j].proposal.verif_rng(), "no acceptance generator equals a proposal generator (C08)");
+                    j += 1;
+                }
+                i += 1;
+            }
+            cov!(src, s == u64::MAX, "largest seed");
+            cov!(src, true, "end reached");
+        }
+    };
+}
+mh_seeded_iso!(c07_mh_seeded_iso_n2, 2, false);
+mh_seeded_iso!(c07_mh_seeded_iso_n3, 3, false);
+mh_seeded_iso!(c07_mh_seeded_iso_n2_top, 2, true);
+
+macro_rules! mh_seeded_user {
+    ($name:ident, $n:expr) => {
+        /// `MetropolisHastings::new(..).seed(s)` with a user-defined seedable proposal.
+        pub fn $name(src: &mut Src) {
+            const N: usize = $n;
+            let s = src.u64();
+            env::set_entropy(src, 4 * (N + 1));
+            let p = SeedRec { seed: None, rng: SmallRng::from_seed([3u8; 32]) };
+            let a = MetropolisHastings::new(FlatTarget, p, states(N)).seed(s);
+            if a.chains.len() != N {
+                chk!(src, false, "one chain per initial state");
+                return;
+            }
+            let mut i = 0;
+            while i < N {
+                let mut j = i + 1;
+                while j < N {
+                    chk!(src, a.chains[i].rng != a.chains[j].rng, "seeded chains have pairwise distinct acceptance generators (C08)");
+                    chk!(src, a.chains[i].proposal.rng != a.chains[j].proposal.rng, "seeded chains give a user-defined seedable proposal pairwise distinct seeds (C08)");
+                    j += 1;
+                }
+                let mut j = 0;
+                while j < N {
+                    chk!(src, a.chains[i].rng != a.chains[j].proposal.rng, "no acceptance generator is seeded like a proposal (C08)");
+                    j += 1;
+                }
+                i += 1;
+            }
+            cov!(src, s == u64::MAX, "largest seed");
+            cov!(src, true, "end reached");
+        }
+    };
+}
+mh_seeded_user!(c08_mh_seeded_user_n2, 2);
+mh_seeded_user!(c08_mh_seeded_user_n3, 3);
+
+macro_rules! mh_unseeded_iso {
+    ($name:ident, $n:expr) => {
+        /// default construction: no two generators of the sampler are copies of one another, i.e.
+        /// for each pair there is OS entropy under which they differ (a clone is equal under all).
+        pub fn $name(src: &mut Src) {
+            const N: usize = $n;
+            env::set_entropy(src, env::ENTROPY_WORDS);
+            let p = IsotropicGaussian::<f64>::new(1.0);
+            let a = MetropolisHastings::new(FlatTarget, p, states(N));
+            if a.chains.len() != N {
+                chk!(src, false, "one chain per initial state");
+                return;
+            }
+            must!(src, a.chains[0].rng != a.chains[1].rng, "unseeded chains 0 and 1 can have different acceptance generators (C08)");
+            must!(src, a.chains[0].proposal != a.chains[1].proposal, "unseeded chains 0 and 1 can have different proposal generators (C08)");
+            must!(src, a.chains[N - 1].proposal != a.chains[0].proposal, "unseeded first and last chain can have different proposal generators (C08)");
+            must!(src, a.chains[0].rng != *a.chains[0].proposal.verif_rng(), "acceptance and proposal generator of a chain can differ (C08)");
+            must!(src, a.chains[1].rng != *a.chains[0].proposal.verif_rng(), "acceptance generator of chain 1 and proposal generator of chain 0 can differ (C08)");
+            cov!(src, true, "end reached");
+        }
+    };
+}
+mh_unseeded_iso!(c08_mh_unseeded_iso_n2, 2);
+mh_unseeded_iso!(c08_mh_unseeded_iso_n3, 3);
+
+macro_rules! gibbs_seeded {
+    ($name:ident, $n:expr, $top:expr) => {
+        /// `GibbsSampler::set_seed(s)`: total over u64, reproducible, pairwise distinct.
+        pub fn $name(src: &mut Src) {
+            const N: usize = $n;
+            let s = src.u64();
+            if $top {
+                src.assume(s >= u64::MAX - 8);
+            }
+            let e1 = src.seed32();
+            let e2 = src.seed32();
+            let mk = |e: [u8; 32]| {
+                let mut chains = Vec::with_capacity(N);
+                let mut i = 0;
+                while i < N {
+                    chains.push(GibbsMarkovChain { target: ConstCond, current_state: vec![0.0f64], seed: 1, rng: SmallRng::from_seed(e) });
+                    i += 1;
+                }
+                GibbsSampler { target: ConstCond, chains, seed: 1 }
+            };
+            let a = mk(e1).set_seed(s);
+            let b = mk(e2).set_seed(s);
+            chk!(src, a.chains.len() == N && b.chains.len() == N, "set_seed keeps the chains");
+            if a.chains.len() != N || b.chains.len() != N {
+                return;
+            }
+            let mut i = 0;
+            while i < N {
+                chk!(src, a.chains[i].rng == b.chains[i].rng, "same seed gives the same generator per chain (C07)");
+                let mut j = i + 1;
+                while j < N {
+                    chk!(src, a.chains[i].rng != a.chains[j].rng, "seeded Gibbs chains have pairwise distinct generators");
+                    j += 1;
+                }
+                i += 1;
+            }
+            cov!(src, s == u64::MAX, "largest seed");
+            cov!(src, true, "end reached");
+        }
+    };
+}
+gibbs_seeded!(c07_gibbs_seeded_n3, 3, false);
+gibbs_seeded!(c07_gibbs_seeded_n3_top, 3, true);
+
+#[allow(dead_code)]
+fn _unused(_: &dyn Fn(f64) -> bool) -> bool {
+    <f64 as BitEq>::biteq(0.0, 0.0)
+}
+
+pub fn by_name(name: &str) -> Option<fn(&mut Src)> {
+    Some(match name {
+        "c07_mh_seeded_iso_n2" => c07_mh_seeded_iso_n2,
+        "c07_mh_seeded_iso_n3" => c07_mh_seeded_iso_n3,
+        "c07_mh_seeded_iso_n2_top" => c07_mh_seeded_iso_n2_top,
+        "c08_mh_seeded_user_n2" => c08_mh_seeded_user_n2,
+        "c08_mh_seeded_user_n3" => c08_mh_seeded_user_n3,
+        "c08_mh_unseeded_iso_n2" => c08_mh_unseeded_iso_n2,
+        "c08_mh_unseeded_iso_n3" => c08_mh_unseeded_iso_n3,
+        "c07_gibbs_seeded_n3" => c07_gibbs_seeded_n3,
+        "c07_gibbs_seeded_n3_top" => c07_gibbs_seeded_n3_top,
+        _ => return None,
+    })
+}
